@@ -32,7 +32,13 @@ def make(rng, i, force_trait=None):
     has_default = any("=" in p for p in ty_params + consts)
     if has_default and consts and "=" not in consts[-1] and any("=" in p for p in ty_params):
         consts = []          # defaults must be trailing
-    generics = "<%s>" % ", ".join(lifetimes + ty_params + consts)
+    plist = ty_params + consts
+    if rng.random() < 0.3:
+        # any order of type and const parameters is legal; those with defaults stay last
+        nodef = [p for p in plist if "=" not in p]
+        rng.shuffle(nodef)
+        plist = nodef + [p for p in plist if "=" in p]
+    generics = "<%s>" % ", ".join(lifetimes + plist)
     where = rng.choice([[], [], ["T: Sized"], ["T: Sized", "%s: core::fmt::Debug" % ty_names[-1]]])
     lt = "'a" if lifetimes else "'static"
     n_name = "N" if consts else "2"
